@@ -86,7 +86,20 @@ impl<'de, R: ReadSlice<'de>> Deserializer<'de> for DatumDeserializer<'_, '_, R> 
 
 	serde::forward_to_deserialize_any! {
 		bool i8 i16 i32 u8 u16 u32 f32 char
-		unit unit_struct newtype_struct
+		unit unit_struct
+	}
+
+	fn deserialize_newtype_struct<V>(
+		self,
+		_name: &'static str,
+		visitor: V,
+	) -> Result<V::Value, Self::Error>
+	where
+		V: Visitor<'de>,
+	{
+		// Newtype structs are transparent (this is also how they are serialized): the
+		// visitor derived for `struct N(T)` only accepts `visit_newtype_struct`/`visit_seq`
+		visitor.visit_newtype_struct(self)
 	}
 
 	fn deserialize_u64<V>(self, visitor: V) -> Result<V::Value, Self::Error>
